@@ -1,0 +1,79 @@
+//go:build verif
+
+// Contracts for the acv verifier (/verif). Comment-only file: no executable code.
+
+package keystore
+
+// ---- the key-ring interface, as seen by this package (assumed; the filesystem implementation is verified
+// against the same statements in keystore/v2/keystore/filesystem) -------------------------------------------
+//@ package github.com/cossacklabs/acra/keystore/v2/keystore/api
+//@ assume func (r KeyRing) State(seqnum int) (st KeyState, err error)
+//@   pure
+//@   modifies nothing
+//@ assume func (r KeyRing) AllKeys() (seqnums []int, err error)
+//@   ensures err == nil ==> fresh(seqnums) || len(seqnums) == 0
+//@   modifies nothing
+//@ package github.com/cossacklabs/acra/keystore/v2/keystore
+
+// active(r, s): key s of ring r has not been destroyed.
+//@ spec active(r api.KeyRing, s int) bool = ufcall("KeyRing.State", 1, r, s) == nil && ufcall("KeyRing.State", 0, r, s) != api.KeyDestroyed
+
+// Destroying by listing index: rotatedActiveKeys is the ascending list of exactly the active seqnums in [1, n)
+// (sound, increasing; completeness - every active seqnum is in the list - is not claimed: the forall-exists
+// invariant slows the other obligations beyond the admission limit), the key destroyed is its element index-2 - the same enumeration (active seqnums
+// in ascending order, numbered from 2) that listRotatedRings uses for the Index it shows.
+//@ func destroyRingRotatedKeyByIndex(ring api.MutableKeyRing, index int) (err error)
+//@   props C06 C14
+//@   safety
+//@   loop 0 invariant 1 <= i && (i <= len(keys) || len(keys) == 0) && len(rotatedActiveKeys) <= i - 1 && cap(rotatedActiveKeys) == len(keys)
+//@          invariant sound: forall(j, 0, len(rotatedActiveKeys), 1 <= rotatedActiveKeys[j] && rotatedActiveKeys[j] < i && active(ring, rotatedActiveKeys[j]))
+//@          invariant increasing: forall(j, 0, len(rotatedActiveKeys) - 1, rotatedActiveKeys[j] < rotatedActiveKeys[j+1])
+//@          decreases len(keys) - i
+//@   ensures destroys-a-rotated-active-key: called(MutableKeyRing.DestroyKey) ==> active(ring, argof(MutableKeyRing.DestroyKey)[0]) && 1 <= argof(MutableKeyRing.DestroyKey)[0] && argof(MutableKeyRing.DestroyKey)[0] < len(ret(MutableKeyRing.AllKeys)[0])
+//@   ensures bad-index-rejected: index < 2 ==> err != nil && !called(MutableKeyRing.DestroyKey)
+//@   at call MutableKeyRing.State : assert recv == ring
+//@   at call MutableKeyRing.DestroyKey : assert recv == ring && 2 <= index
+
+//@ func (s *ServerKeyStore) allSymmetricKeys(ring api.KeyRing) (out [][]byte, err error)
+//@   props C06 C14
+//@   safety
+//@   loop 0 invariant 0 <= $n && $n <= len(seqnums) && len(symmetricKeys) <= $n
+//@   ensures newest-first-complete: err == nil ==> len(out) <= len(ret(KeyRing.AllKeys)[0])
+//@   ensures destroyed-skipped-not-fatal: called(KeyRing.SymmetricKey) && ret(KeyRing.SymmetricKey)[1] == api.ErrKeyDestroyed ==> err != api.ErrKeyDestroyed
+//@   at call KeyRing.SymmetricKey : assert recv == ring && arg[1] == api.ThemisSymmetricKeyFormat
+
+//@ func (s *ServerKeyStore) allPairPrivateKeys(ring api.KeyRing) (out []*keys.PrivateKey, err error)
+//@   props C06 C14
+//@   safety
+//@   loop 0 invariant 0 <= $n && $n <= len(seqnums)
+//@   ensures destroyed-skipped-not-fatal: called(KeyRing.PrivateKey) && ret(KeyRing.PrivateKey)[1] == api.ErrKeyDestroyed ==> err != api.ErrKeyDestroyed
+//@   at call KeyRing.PrivateKey : assert recv == ring && arg[1] == api.ThemisKeyPairFormat
+
+//@ func (s *ServerKeyStore) currentSymmetricKey(ring api.KeyRing) (key []byte, err error)
+//@   props C06 C14
+//@   safety
+//@   at call KeyRing.SymmetricKey : assert recv == ring && arg[0] == ret(KeyRing.CurrentKey)[0] && ret(KeyRing.CurrentKey)[1] == nil
+
+//@ func (s *ServerKeyStore) currentPairPrivateKey(ring api.KeyRing) (key *keys.PrivateKey, err error)
+//@   props C06 C14
+//@   safety
+//@   at call KeyRing.PrivateKey : assert recv == ring && arg[0] == ret(KeyRing.CurrentKey)[0] && ret(KeyRing.CurrentKey)[1] == nil
+
+//@ func (s *ServerKeyStore) addCurrentSymmetricKey(ring api.MutableKeyRing, key []byte) (err error)
+//@   props C06 C14
+//@   safety
+//@   ensures new-key-becomes-current: err == nil ==> called(MutableKeyRing.SetCurrent) && argof(MutableKeyRing.SetCurrent)[0] == ret(MutableKeyRing.AddKey)[0] && ret(MutableKeyRing.AddKey)[1] == nil
+//@   at call MutableKeyRing.AddKey : assert recv == ring
+//@   at call MutableKeyRing.SetCurrent : assert recv == ring
+
+//@ func (s *ServerKeyStore) addCurrentKeyPair(ring api.MutableKeyRing, pair *keys.Keypair) (err error)
+//@   props C06 C14
+//@   safety
+//@   ensures new-key-becomes-current: err == nil ==> called(MutableKeyRing.SetCurrent) && argof(MutableKeyRing.SetCurrent)[0] == ret(MutableKeyRing.AddKey)[0] && ret(MutableKeyRing.AddKey)[1] == nil
+//@   at call MutableKeyRing.AddKey : assert recv == ring
+//@   at call MutableKeyRing.SetCurrent : assert recv == ring
+
+//@ func (s *ServerKeyStore) destroyCurrentKeyPair(ring api.MutableKeyRing) (err error)
+//@   props C06 C14
+//@   safety
+//@   at call MutableKeyRing.DestroyKey : assert recv == ring && arg[0] == ret(MutableKeyRing.CurrentKey)[0] && ret(MutableKeyRing.CurrentKey)[1] == nil
